@@ -204,6 +204,13 @@ def type_name(
         return "..."
     elif typ is Any:
         return _typing_name("Any", short)
+    elif is_type_alias_type(typ):
+        # a PEP 695 alias has no __qualname__, and its bare name is not
+        # resolvable from the generated code
+        if short:
+            return typ.__name__  # type: ignore[union-attr]
+        else:
+            return f"{typ.__module__}.{typ.__name__}"  # type: ignore
     elif is_optional(typ, resolved_type_params):
         args_str = type_name(
             typ=not_none_type_arg(get_args(typ), resolved_type_params),
@@ -275,13 +282,6 @@ def type_name(
             else:
                 bound = getattr(typ, "__bound__")
             return type_name(bound, short, resolved_type_params)
-    elif is_type_alias_type(typ):
-        # a PEP 695 alias has no __qualname__, and its bare name is not
-        # resolvable from the generated code
-        if short:
-            return typ.__name__  # type: ignore[union-attr]
-        else:
-            return f"{typ.__module__}.{typ.__name__}"  # type: ignore
     elif is_new_type(typ) and not PY_310_MIN:
         # because __qualname__ and __module__ are messed up
         typ = typ.__supertype__
@@ -367,6 +367,8 @@ def is_optional(
 ) -> bool:
     if resolved_type_params is None:
         resolved_type_params = {}
+    while is_type_alias_type(typ):
+        typ = typ.__value__
     if is_annotated(typ):
         typ = get_type_origin(typ)
     if not is_union(typ):
@@ -382,6 +384,8 @@ def is_optional(
 
 def is_union_with_none(typ: Type) -> bool:
     # e.g. Union[int, str, None], which is not Optional[...] but nullable
+    while is_type_alias_type(typ):
+        typ = typ.__value__
     if is_annotated(typ):
         typ = get_type_origin(typ)
     return is_union(typ) and NoneType in get_args(typ)
